@@ -90,7 +90,13 @@ impl Engine for SyncCellEngine {
     }
     fn enumerate(&self, tier: Tier, _focus: &str) -> Vec<Case> {
         let depth = if tier == Tier::Quick { 22 } else { 34 };
-        let mut v = vec![Case { lines: vec!["case cell 0 0".into(), "shape".into(), format!("search 2 {depth}"), "search 1 16".into()] }];
+        // the shape of the two programs and the model-side search for a torn-read history are separate cases: a search that
+        // finds a history is a failing history even when the shape is no longer the one the theorems are about
+        let mut v = vec![
+            Case { lines: vec!["case cell 0 0".into(), "shape".into()] },
+            Case { lines: vec!["case cell 0 0".into(), format!("search 2 {depth}")] },
+            Case { lines: vec!["case cell 0 0".into(), "search 1 16".into()] },
+        ];
         let (w, n) = if tier == Tier::Quick { (200_000, 3) } else { (3_000_000, 6) };
         for r in 1..=n {
             v.push(Case { lines: vec!["case cell 0 3".into(), format!("stress {w} {r}")] });
